@@ -265,6 +265,36 @@ def run_harness(binpath, args, input_text, timeout=900):
     return p.returncode, p.stdout, p.stderr
 
 
+def run_harness_sharded(binpath, args, lines, shards=NCPU, timeout=900):
+    """Runs the harness over `lines` split into contiguous shards in parallel child processes.
+    Returns (ok, output_lines, diagnostics). A child that dies (abort, stack overflow, kill) makes
+    ok False and names the shard; its lines are reported as "CHILD-DIED"."""
+    if not lines:
+        return True, [], ""
+    n = max(1, min(shards, len(lines)))
+    size = (len(lines) + n - 1) // n
+    chunks = [lines[i:i + size] for i in range(0, len(lines), size)]
+
+    def one(chunk):
+        try:
+            return run_harness(binpath, args, "\n".join(chunk) + "\n", timeout=timeout)
+        except subprocess.TimeoutExpired:
+            return 124, "", "timeout"
+
+    out, ok, diag = [], True, []
+    with ThreadPoolExecutor(n) as ex:
+        for k, (chunk, (rc, o, e)) in enumerate(zip(chunks, ex.map(one, chunks))):
+            ls = o.split("\n")
+            if ls and ls[-1] == "":
+                ls.pop()
+            if rc != 0 or len(ls) != len(chunk):
+                ok = False
+                diag.append("shard %d: rc=%s lines=%d/%d %s" % (k, rc, len(ls), len(chunk), e[-300:]))
+                ls = ls[:len(chunk)] + ["CHILD-DIED"] * (len(chunk) - len(ls))
+            out.extend(ls)
+    return ok, out, "\n".join(diag)
+
+
 # --------------------------------------------------------------------------------------
 # step 4: evaluating the model inside Coq on the cases the implementation ran
 
@@ -336,7 +366,7 @@ def finish(ctx, level="proof", checker_cmd=None, rule="", samples=None, extra=No
     for v in ctx.violations:
         hit = None
         for k in known:
-            if v.key == k["key"] or (k.get("key_regex") and re.fullmatch(k["key_regex"], v.key)):
+            if v.key == k.get("key") or (k.get("key_regex") and re.fullmatch(k["key_regex"], v.key)):
                 hit = k
                 break
         if hit:
